@@ -40,6 +40,8 @@ def gen_tags_case(rng, tier):
     samples = w["samples"]
     chroms = [c["name"] for c in w["chroms"]]
     ops = [{"op": "phase", "lib": "L0", "tag": rng.choice(["PS", "PS", "HP"])}]
+    if rng.random() < 0.4:
+        ops[0].update(mode="render", nsets=rng.choice([1, 2, 3, 5]), salt=rng.randrange(10**6), ps_ids=rng.choice(["first", "random", "random"]))
     hopts = {}
     if rng.random() < 0.15:
         hopts["tag_supplementary"] = True
@@ -71,6 +73,47 @@ def gen_tags_case(rng, tier):
         popts["only_indels"] = True
     ops.append({"op": "haplotagphase", "opts": popts})
     return {"machine": "tags", "world": W.clean_world(w), "ops": ops, "knobs": {"depth": depth, "kinds": kinds}}
+
+
+def render_vstar(world, path, tag, nsets, salt, ps_ids):
+    """
+    V* written by the harness instead of by `whatshap phase`: the true haplotypes, cut into `nsets` contiguous
+    phase sets per (chromosome, sample), each with a seeded orientation and (optionally) a phase-set id that is
+    unrelated to any position.  Any such file is 'a phased VCF' consistent with the error-free reads.
+    """
+    import copy as _copy
+
+    w = _copy.deepcopy(world)
+    cores = [r for r in w["records"] if r.get("core")]
+    truth = w["truth"]["main"]
+    groups = {}
+    for k, r in enumerate(cores):
+        for s in w["samples"]:
+            al = (truth[s][0][k], truth[s][1][k])
+            if al[0] != al[1] and r["calls"][s][0] in ("0/1", "1/0"):
+                groups.setdefault((r["chrom"], s), []).append((k, r, al))
+    for (ci, s), lst in sorted(groups.items()):
+        n = max(1, min(nsets, len(lst)))
+        for j, (k, r, al) in enumerate(lst):
+            g = j * n // len(lst)
+            first = [x for i, x in enumerate(lst) if i * n // len(lst) == g][0][1]["pos"] + 1
+            h = hashlib.sha256(("%s|%d|%s|%d" % (salt, ci, s, g)).encode()).digest()
+            ps = first if ps_ids == "first" else 1 + (h[2] * 65536 + h[3] * 256 + h[4]) % 900000
+            if h[0] & 1:
+                al = (al[1], al[0])
+            key = "PS" if tag == "PS" else "HP"
+            if key not in r["format"]:
+                r["format"].append(key)
+                for s2 in w["samples"]:
+                    r["calls"][s2].append(".")
+            idx = r["format"].index(key)
+            if tag == "PS":
+                r["calls"][s][0] = "%d|%d" % al
+                r["calls"][s][idx] = str(ps)
+            else:
+                r["calls"][s][0] = "0/1"
+                r["calls"][s][idx] = ",".join("%d-%d" % (ps, al.index(a) + 1) for a in (0, 1))
+    W.write_vcf(w, path)
 
 
 def rewrite_unphased(src, dst, choose):
@@ -166,7 +209,10 @@ class TagsRun:
         # 1. phase -> V*
         vstar = os.path.join(d, "vstar.vcf")
         tag = ops["phase"]["tag"]
-        if not self.guarded("phase(L0,%s)" % tag, lambda: run_whatshap(
+        if ops["phase"].get("mode") == "render":
+            render_vstar(w, vstar, tag, ops["phase"].get("nsets", 1), ops["phase"].get("salt", 0), ops["phase"].get("ps_ids", "first"))
+            self.stats.inc("vstar_rendered")
+        elif not self.guarded("phase(L0,%s)" % tag, lambda: run_whatshap(
                 phase_input_files=[bam], variant_file=os.path.join(d, "in.vcf"), output=vstar, reference=ref,
                 tag=tag, write_command_line_header=False)):
             return
